@@ -27,6 +27,9 @@ ASSUMPTIONS = [
 ID_MAPS = ("ident", "plus1", "10i+3", "reversed", "scattered")
 SCATTER = [7, 2, 9, 4, 11, 5, 13, 1]
 EXTRAS = ((), ("a",), ("a", "b"))
+# table / tree forms also carry non-float columns: 64-bit integers beyond 2^53 (not representable as doubles) and strings
+EXTRAS_TYPED = (("big",), ("a", "big"), ("big", "s"))
+FILE_COLS = ("a", "b")
 
 
 def id_map(kind, n):
@@ -46,9 +49,10 @@ def attrs(n, tagged):
     rows = []
     for i in range(n):
         if tagged:
-            rows.append({"type": 1 + (i * 2) % 5, "x": 100.0 + i, "y": 0.5 * i, "z": -1.25 * i, "r": 0.25 + i, "a": 7.5 - i, "b": float(3 * i % 4)})
+            rows.append({"type": 1 + (i * 2) % 5, "x": 100.0 + i, "y": 0.5 * i, "z": -1.25 * i, "r": 0.25 + i, "a": 7.5 - i, "b": float(3 * i % 4),
+                         "big": 2**53 + 1 + 2 * i, "s": f"n{i}"})
         else:
-            rows.append({"type": 3, "x": 1.0, "y": 2.0, "z": 3.0, "r": 0.5, "a": 4.0, "b": 6.0})
+            rows.append({"type": 3, "x": 1.0, "y": 2.0, "z": 3.0, "r": 0.5, "a": 4.0, "b": 6.0, "big": 2**53 + 1, "s": "n"})
     return rows
 
 
@@ -106,7 +110,8 @@ def check_tree_form(case, R):
         R.trivial()
     R.state(p, extras, tagged)
     rows = attrs(n, tagged)
-    extra = {k: np.array([rows[i][k] for i in range(n)], dtype=np.float64 if k == "a" else np.float32) for k in extras}
+    dt = {"a": np.float64, "b": np.float32, "big": np.int64, "s": "U6"}
+    extra = {k: np.array([rows[i][k] for i in range(n)], dtype=dt[k]) for k in extras}
     t = build.make_tree(p, xyz=[(rows[i]["x"], rows[i]["y"], rows[i]["z"]) for i in range(n)], r=[rows[i]["r"] for i in range(n)],
                         types=[rows[i]["type"] for i in range(n)], extra=extra)
     snap = build.snapshot(t)
@@ -197,7 +202,9 @@ def check_table_form(case, R):
         i_, p_, c_ = as_lists(df2)
         judge(R, "sort_nodes_", p, rows, extras, tagged, i_, p_, c_)
 
-    # file form
+    # file form (only the columns a text file can carry exactly)
+    if any(e not in FILE_COLS for e in extras):
+        return
     text = "# header\n" + "".join(" ".join(_fmt(d[c]) for c in cols) + "\n" for d in trows)
     ok, res = R.impl("read_swc(sort_nodes=True)", lambda: read_swc(io.StringIO(text), extra_cols=list(extras) or None, sort_nodes=True))
     if ok:
@@ -308,7 +315,7 @@ def spaces(tier, seed):
     def gen_tree():
         for n in range(1, tree_hi + 1):
             for p in S.labelled_trees(n):
-                for ex in EXTRAS:
+                for ex in EXTRAS + (EXTRAS_TYPED if n <= tree_hi - 1 else EXTRAS_TYPED[-1:]):
                     for tagged in (True, False):
                         yield (p, ex, tagged)
 
@@ -321,6 +328,8 @@ def spaces(tier, seed):
                         for ex in ((("a", "b"),) if slim else EXTRAS):
                             yield (p, order, mk, ex, True)
                     yield (p, order, "10i+3", ("a",), False)
+                    for ex in (EXTRAS_TYPED[-1:] if slim else EXTRAS_TYPED):
+                        yield (p, order, "scattered", ex, True)
 
     h2 = 4 if tier == "quick" else 5
     h3 = 3 if tier == "quick" else 4
@@ -339,8 +348,8 @@ def spaces(tier, seed):
     return [
         Space.of("sort-histories", gen_hist, check_history,
                  bounds={"sequences": f"all ordered pairs of (form, tree) over LT(2..{h2 - 1}) + ST({h2}) x {FORMS}; all ordered triples over LT(3..{h3})"}),
-        Space.of("tree-form", gen_tree, check_tree_form, bounds={"LT_max_nodes": tree_hi, "extras": EXTRAS}),
+        Space.of("tree-form", gen_tree, check_tree_form, bounds={"LT_max_nodes": tree_hi, "extras": EXTRAS + EXTRAS_TYPED, "typed_columns": "big = int64 beyond 2^53, s = strings"}),
         Space.of("table-and-file-forms", gen_table, check_table_form,
-                 bounds={"LT_max_nodes": tab_hi, "all_row_orders_up_to": tab_full, "id_maps": ID_MAPS, "extras": EXTRAS,
+                 bounds={"LT_max_nodes": tab_hi, "all_row_orders_up_to": tab_full, "id_maps": ID_MAPS, "extras": EXTRAS, "typed_extras (table forms, id map scattered)": EXTRAS_TYPED,
                          "largest_size_in_quick": "cyclic shifts + reversal x id maps {10i+3, reversed} x extras (a,b)"}),
     ]
